@@ -1,6 +1,6 @@
 (* C17: which codes each checker can emit, and the effect of an inline @ignore carrying exactly the displayed code. *)
 From Coq Require Import List String ZArith Bool Lia.
-From GG Require Import Base.Strs Model.Codes Model.IgnoreSet Model.Config Model.GoAst Model.Annots Model.Analyze
+From GG Require Import Base.Strs Model.Codes Model.IgnoreSet Model.Config Model.GoTypes Model.GoAst Model.Annots Model.Analyze Model.Impl
                        Model.Reporter Proofs.WalkProofs Proofs.ReporterProofs.
 Import ListNotations.
 Local Open Scope string_scope.
@@ -23,6 +23,19 @@ Definition IMM_CODES := ["IMM01"; "IMM02"; "IMM03"; "IMM04"].
 Definition CTOR_CODES := ["CTOR01"; "CTOR02"; "CTOR03"].
 Definition TONL_CODES := ["TONL01"; "TONL02"; "TONL03"].
 Definition PKGO_CODES := ["PKGO01"; "PKGO02"; "PKGO03"].
+Definition IMPL_CODES := ["IMPL01"; "IMPL02"; "IMPL03"].
+
+Theorem impl_candidates_codes tt cur imps anns : codes_in IMPL_CODES (impl_candidates tt cur imps anns).
+Proof.
+  unfold impl_candidates. repeat apply codes_in_app; apply codes_in_flat_map; intros a _.
+  - unfold impl01. destruct (ia_notfound a); [apply codes_in_single; cbn; tauto|apply codes_in_nil].
+  - unfold impl02. destruct (ia_notfound a); [apply codes_in_nil|].
+    destruct (find_iface tt cur imps (ia_fullpath a) (ia_iface a)); [apply codes_in_nil|apply codes_in_single; cbn; tauto].
+  - unfold impl03. destruct (ia_notfound a); [apply codes_in_nil|].
+    destruct (find_iface tt cur imps (ia_fullpath a) (ia_iface a)); [|apply codes_in_nil].
+    destruct (find_type tt (ia_type a)); [|apply codes_in_nil].
+    destruct (missing_methods t i (ia_ptr a)); [apply codes_in_nil|apply codes_in_single; cbn; tauto].
+Qed.
 
 Section Codes.
 Variable fs : facts.
